@@ -215,12 +215,17 @@ Inductive site :=
                       interface{} header: memory corruption, the runtime dies (fatal error, not a panic) *)
 | HArrayNeg        (* arrayDecoder.Decode: count < 0 -> for i := count; i < length; i++ { UnsafeSetIndex(array, i, ..) }
                       writes before the array: memory corruption (SIGSEGV for a large |count|, silent damage for a small one) *)
+| HBigExp          (* decodeBigInt (TagDouble): bf.Int(nil) of a float text with a huge exponent; stringToBigRat: Rat.SetString
+                      of such a text: the number is built in full, exponentially larger than its text (no panic: the
+                      unchecked behaviour is a cost failure, time and memory out of proportion to the input) *)
 | HClientCount.    (* clientCodec.Decode: for i := count; i < n; i++ { results[i] = .. } with count < 0 *)
 
 (* texts handed to library parsers: answered by a finite table per case (DESIGN 3: oracles) *)
 Inductive okind :=
 | OF64 | OF32 | OF64Z | OInt (bits : N) | OUint (bits : N) | OBool | OBig (b : bigk)
-| OUuid | OUuidB | OUuidP | OTime.
+| OUuid | OUuidB | OUuidP | OTime
+| OExpInt          (* the text is a big.Float whose binary exponent exceeds what a *big.Int destination accepts *)
+| OExpRat.         (* the text carries a decimal / binary exponent beyond what a *big.Rat destination accepts *)
 
 Inductive out (A : Type) :=
 | ROk (a : A) (s : st)
@@ -425,6 +430,21 @@ Definition parse_force (k : okind) (t : bytes) (s : st) : out unit :=
 Definition parse_soft (k : okind) (t : bytes) (s : st) : out bool :=
   ask k t (fun ok => ROk ok (if ok then s else set_error s KDecode)).
 
+(* The library builds a number written with an exponent in full: bf.Int(nil) for a float text handed to a
+   *big.Int, Rat.SetString for a rational.  "d1e100000000;" is 13 bytes and a 332-million-bit integer.  The
+   size of the exponent is the library's business (an oracle); that the conversion happens at all is a hazard. *)
+Definition parse_rat (t : bytes) (s : st) : out bool :=
+  ask OExpRat t (fun huge =>
+    if huge then RHaz HBigExp s (ROk false (set_error s KDecode)) else parse_soft (OBig BRat) t s).
+Definition parse_big (b : bigk) (t : bytes) (s : st) : out bool :=
+  match b with BRat => parse_rat t s | _ => parse_soft (OBig b) t s end.
+(* decodeBigInt, TagDouble: readBigFloat, then bf.Int(nil) *)
+Definition float_to_int (t : bytes) (s : st) : out bool :=
+  bnd (parse_soft (OBig BFloat) t s) (fun good s1 =>
+  if good then ask OExpInt t (fun huge =>
+    if huge then RHaz HBigExp s1 (ROk false (set_error s1 KCast)) else ROk true s1)
+  else ROk false s1).
+
 (* ------------------------------------------------------------------ references *)
 
 Definition src_shape (r : rent) : option shape :=
@@ -460,8 +480,8 @@ Fixpoint ptr_core (e : shape) : N * shape :=
 Fixpoint convert (ch : bool) (r : rent) (dest : shape) (s : st) : out (option aval) :=
   match r, dest with
   (* converters registered in init() *)
-  | RStr t, SBig b => bnd (parse_soft (OBig b) t s) (fun _ s1 => ROk (Some (AOther true)) s1)
-  | RStr t, SBigV b => bnd (parse_soft (OBig b) t s) (fun _ s1 => ROk (Some (AOther true)) s1)
+  | RStr t, SBig b => bnd (parse_big b t s) (fun _ s1 => ROk (Some (AOther true)) s1)
+  | RStr t, SBigV b => bnd (parse_big b t s) (fun _ s1 => ROk (Some (AOther true)) s1)
   | RStr t, SBytes => ROk (Some (AOther false)) s
   | RBytes c, SString => ROk (Some (match c with Some t => AStr t | None => AOther true end)) s
   | RStr t, STime => bnd (parse_soft OTime t s) (fun _ s1 => ROk (Some (AOther true)) s1)
@@ -794,7 +814,7 @@ Definition dec_bytes (tag : byte) (s : st) : out aval :=
 Definition dec_big (b : bigk) (tag : byte) (s : st) : out aval :=
   let sh := SBig b in
   let ok (s1 : st) := ROk (AOther true) s1 in
-  let parsed (r : out bytes) := bnd r (fun t s1 => bnd (parse_soft (OBig b) t s1) (fun _ s2 => ok s2)) in
+  let parsed (r : out bytes) := bnd r (fun t s1 => bnd (parse_big b t s1) (fun _ s2 => ok s2)) in
   if is_dig tag || tag_is tag "n" || tag_is tag "e" || tag_is tag "f" || tag_is tag "t" then ok s
   else if tag_is tag "i" then let '(_, s1) := read_int s in ok s1
   else if tag_is tag "u" then parsed (str_u s)
@@ -802,7 +822,7 @@ Definition dec_big (b : bigk) (tag : byte) (s : st) : out aval :=
   else match b with
   | BInt =>
     if tag_is tag "l" then let '(t, s1) := until_semi s in bnd (parse_soft (OBig BInt) t s1) (fun _ s2 => ok s2)
-    else if tag_is tag "d" then let '(t, s1) := until_semi s in bnd (parse_soft (OBig BFloat) t s1) (fun _ s2 => ok s2)
+    else if tag_is tag "d" then let '(t, s1) := until_semi s in bnd (float_to_int t s1) (fun _ s2 => ok s2)
     else default_decode sh tag s
   | BFloat =>
     if tag_is tag "l" || tag_is tag "d" then let '(t, s1) := until_semi s in bnd (parse_soft (OBig BFloat) t s1) (fun _ s2 => ok s2)
